@@ -104,6 +104,19 @@ def ref_problems(lib, refs):
                 prev = None
             elif st["s"] not in ("touch",):
                 prev = None
+    # prior renderings (and to_code / export calls) must not influence a later rendering
+    byid = {d["id"]: d for d in lib}
+    for d in lib:
+        o = d.get("twin_of")
+        if not o or d["id"] in unusable or o in unusable:
+            continue
+        if any(h["desc"]["id"] in (o, d["id"]) for h in hs_viol):
+            continue
+        full = refs[o][REF_HASHSEEDS[0]]["renders"]
+        last = refs[d["id"]][REF_HASHSEEDS[0]]["renders"]
+        if full and last and full[-1].get("digest") != last[-1].get("digest"):
+            hs_viol.append({"desc": byid[o], "twin": d, "render": len(full) - 1, "clause": "prior-render-influences-later-render",
+                            "files": diff_files(full[-1], last[-1])})
     return unusable, hs_viol
 
 
@@ -442,7 +455,7 @@ def replay(path):
     doc = json.load(open(path))
     scratch = K.scratch_root()
     if doc.get("kind") == "hashseed":
-        lib = [doc["desc"]]
+        lib = [doc["desc"]] + ([doc["twin"]] if doc.get("twin") else [])
         refs = build_references(lib, scratch)
         un, hv = ref_problems(lib, refs)
         hv = [h for h in hv if h["clause"] == doc["clause"]]
@@ -533,9 +546,10 @@ def main(argv):
     ref_s = timer.s()
     if len(unusable) > len(lib) * 0.4:
         raise K.HarnessError(f"too many unusable descriptions: {unusable}")
-    usable = [d for d in lib if d["id"] not in unusable and not any(h["desc"]["id"] == d["id"] for h in hs_viol)]
+    usable = [d for d in lib if d["id"] not in unusable and not d.get("twin_of")
+              and not any(h["desc"]["id"] == d["id"] for h in hs_viol)]
     if len(usable) < 4:
-        usable = [d for d in lib if d["id"] not in unusable]
+        usable = [d for d in lib if d["id"] not in unusable and not d.get("twin_of")]
     lib_by_id = {d["id"]: d for d in usable}
     fam_of = {d["id"]: d["family"] for d in usable}
     nruns = {"quick": 320, "thorough": 40000}[tier]
@@ -584,7 +598,8 @@ def main(argv):
         "runs_per_hour": int(tot["runs"] / max(wall - ref_s, 1e-6) * 3600),
         "renders_compared": tot["renders"],
         "session_steps": tot["steps"],
-        "library_descriptions": len(lib),
+        "library_descriptions": len([d for d in lib if not d.get("twin_of")]),
+        "library_twins_without_prior_renders": len([d for d in lib if d.get("twin_of")]),
         "library_usable": len(usable),
         "library_unusable": unusable,
         "families": families,
@@ -635,6 +650,11 @@ def report(viols, hs_viol, lib_by_id, lib, refs, seed, scratch):
         if h["clause"] == "hash-seed-dependence":
             out.append(f"violated clause: hash-seed-dependence: {h['desc']['id']} alone renders differently under PYTHONHASHSEED "
                   f"{' and '.join(h.get('seeds', REF_HASHSEEDS[:2]))} in {h['files'][:5]}")
+        elif h["clause"] == "prior-render-influences-later-render":
+            doc["twin"] = h["twin"]
+            K.write_replay(PROP, seed, len(replays) - 1, doc)
+            out.append(f"violated clause: prior-render-influences-later-render: {h['desc']['id']} alone: its last rendering differs from "
+                       f"the same script with the earlier render/to_code/export steps left out, in {h['files'][:5]}")
         else:
             out.append(f"violated clause: repeated-render-differs: {h['desc']['id']} alone: render #{h['render']} repeats the previous "
                   f"request with no edit in between but differs in {h['files'][:5]}")
